@@ -171,7 +171,12 @@ class Canon:
             d = self._derived(e)
             if d is not None:
                 return self._t(d)
-            return ('attr', self._t(e.value), e.attr)
+            base = self._t(e.value)
+            # Record(field=a, other=b).field is a: a plain record class of the module (NamedTuple / dataclass with annotated fields, no hooks)
+            fv = self._record_field(base, e.attr)
+            if fv is not None:
+                return fv
+            return ('attr', base, e.attr)
         if isinstance(e, ast.UnaryOp):
             v = self._t(e.operand)
             if isinstance(e.op, ast.USub):
@@ -312,6 +317,25 @@ class Canon:
         return ('other', ast.dump(e))
 
     # ------------------------------------------------------------------
+    def _record_field(self, base, attr):
+        if not (isinstance(base, tuple) and len(base) == 4 and base[0] == 'call' and isinstance(base[1], tuple) and base[1][0] in ('lib', 'name')):
+            return None
+        cname = str(base[1][1]).split('.')[-1]
+        cls = self.m.classes.get(cname)
+        if cls is None or (base[1][0] == 'lib' and not str(base[1][1]).startswith(self.m.name + '.')):
+            return None
+        fields = [st.target.id for st in cls.body if isinstance(st, ast.AnnAssign) and isinstance(st.target, ast.Name)]
+        methods = {st.name for st in cls.body if isinstance(st, (ast.FunctionDef, ast.AsyncFunctionDef))}
+        if attr not in fields or methods & {'__post_init__', '__init__', '__new__', '__getattr__', '__getattribute__', '__setattr__', attr}:
+            return None
+        kws = dict(base[3]) if base[3] else {}
+        if attr in kws:
+            return kws[attr]
+        i = fields.index(attr)
+        if i < len(base[2]) and not any(isinstance(a, tuple) and a and a[0] == 'starred' for a in base[2]):
+            return base[2][i]
+        return None
+
     def _call(self, e: ast.Call):
         args = []
         for a in e.args:
@@ -590,6 +614,19 @@ class Canon:
         known = ATTRS.get(self.m.name, {}).get(cls_node.name)
         if known is None or e.attr in known:
             return None
+        # a read-only property of the class that is one returned expression over self
+        for st in cls_node.body:
+            if isinstance(st, ast.FunctionDef) and st.name == e.attr and any((isinstance(d_, ast.Name) and d_.id in ('property', 'cached_property')) or (isinstance(d_, ast.Attribute) and d_.attr in ('cached_property',)) for d_ in st.decorator_list):
+                body = [b for b in st.body if not (isinstance(b, ast.Expr) and isinstance(b.value, ast.Constant))]
+                if len(body) == 1 and isinstance(body[0], ast.Return) and body[0].value is not None and len(st.args.args) == 1:
+                    value = copy.deepcopy(body[0].value)
+                    me = st.args.args[0].arg
+                    if me != fn.params[0]:
+                        for x in ast.walk(value):
+                            if isinstance(x, ast.Name) and x.id == me:
+                                x.id = fn.params[0]
+                    return value
+                return None
         from .model import derived_attr
         d = derived_attr(cls_node, e.attr, set(known))
         if d is None:
